@@ -254,7 +254,7 @@ class Signals:
         user_args = self._prepare_user_args(weak_args, user_args)
 
         # Remove the given handler
-        for h in handlers:
+        for h in tuple(handlers):  # snapshot: a dying weak argument removes its handler from the list in place
             if h[1:] == (callback, user_arg, user_args):
                 return self.disconnect_by_key(obj, name, h[0])
         return None
@@ -277,7 +277,13 @@ class Signals:
         function will simply do nothing.
         """
         handlers = setdefaultattr(obj, self._signal_attr, {}).get(name, [])
-        handlers[:] = [h for h in handlers if h[0] is not key]
+        for h in tuple(handlers):  # snapshot: a dying weak argument removes its handler from the list in place
+            if h[0] is key:
+                try:
+                    handlers.remove(h)
+                except ValueError:
+                    pass  # removed meanwhile by its own weak reference callback
+                break
 
     def emit(self, obj, name: Hashable, *args) -> bool:
         """
